@@ -1793,7 +1793,7 @@ def increment_of(body, bb, pos, l):
 # universally quantified loops:  for x in coll { if !p(x) { return false } } return true
 # --------------------------------------------------------------------------
 
-_TRUNCATING = re.compile(r"Iterator::(take|skip|filter|step_by|take_while|skip_while|filter_map|peekable|map_while|nth|last|find)$|slice::.*::(first|last|split_first|split_last|chunks|windows)$")
+_TRUNCATING = re.compile(r"Iterator>?::(take|skip|filter|step_by|take_while|skip_while|filter_map|peekable|map_while|nth|last|find)$|slice::.*::(first|last|split_first|split_last|chunks|windows)$")
 
 
 def truthy(t, want):
@@ -1997,3 +1997,9 @@ def loopfree(t):
             return mk_phi(alts)
         return None
     return rewrite(t, f)
+
+
+def itm(s, name):
+    """callee path `s` is the Iterator method `name`, whether printed as the trait method
+    (std::iter::Iterator::map) or resolved to an impl (<slice::Iter<T> as Iterator>::map)"""
+    return bool(s) and bool(re.search(r"Iterator(<[^>]*>)?>?::%s$" % name, s))
